@@ -37,7 +37,7 @@ func (genT) EdgeLen(t *rapid.T, max int, label string, edges ...int) int {
 // FillBytes draws n bytes cheaply: a short random pattern repeated.
 func (genT) FillBytes(t *rapid.T, n int, label string) []byte {
 	if n <= 64 {
-		return gen.Bytes(t, n, label)
+		return genFree(t, n, label) // one time in six carrying one of the format's own markers
 	}
 	pat := rapid.SliceOfN(rapid.Byte(), 1, 16).Draw(t, label+"_pat")
 	out := make([]byte, n)
